@@ -56,6 +56,10 @@ type Kind[K any] struct {
 
 	// SliceKey: K is a slice type (caller buffers matter: C13).
 	SliceKey bool
+	// Shorten returns k[:n] sharing k's memory (slice keys only, else nil).
+	Shorten func(k K, n int) K
+	// KeyLen is len(k) for slice keys.
+	KeyLen func(k K) int
 }
 
 type Universe[K any] struct {
